@@ -26,6 +26,7 @@ EXPLANATION = (
     " Added after seed round 7: E10 add_statement refuses statements and heads that are a Var, Constant, And or Not with a GroundingError (class tests evaluated on the Term hierarchy)."
     " Added after seed round 8: E11 consult registers the line table of a file before it loads the file."
     " Added after seed round 9: E12 in the problog_export family no constructor value is derived from an argument list that a subclass constructor replaces afterwards (positive example matched on every run)."
+    " Added from a seeding agent's remarks about the clean tree (both fired there and are repaired): E13 an entry point that resolves a goal with get_builtin and evaluates it with self.execute supplies a call_origin, because builtins subscript kwdargs['call_origin'] without a test; E14 order comparisons of compute_value results are attempted under a TypeError handler."
 )
 TECHNIQUE = "static analysis: import resolution, exception-flow over resolved call graph, handler-coverage tables"
 
@@ -1077,6 +1078,100 @@ def rule_e12(repo, col):
                construct="problog_export family: derived constructor values", function="problog_export.__init__")
 
 
+def rule_e13(repo, col):
+    """Builtins read kwdargs['call_origin'][k] without a test (error/1, findall, the keep_builtins naming of SimpleBuiltIn ...), eval_call supplies it for calls from a clause body.
+    A builtin that is evaluated WITHOUT a calling clause - the query itself is a builtin, or engine.call() is used - must get a call origin from that entry point: EvalBuiltIn passes
+    call_origin=None otherwise and the unconditional subscript is a TypeError (`query(error(x)).`)."""
+    KEY = "call_origin"
+
+    def is_key_read(x):
+        if isinstance(x, ast.Subscript) and isinstance(x.slice, ast.Constant) and x.slice.value == KEY:
+            return True
+        return isinstance(x, ast.Call) and isinstance(x.func, ast.Attribute) and x.func.attr == "get" and x.args and isinstance(x.args[0], ast.Constant) and x.args[0].value == KEY
+
+    derefs = []
+    for f in repo.all_functions():
+        parents = None
+        for x in ast.walk(f.node):
+            if isinstance(x, ast.Subscript) and is_key_read(x.value):
+                if parents is None:
+                    parents = f.module.parents()
+                cur, guarded = parents.get(x), False
+                while cur is not None and cur is not f.node:
+                    if isinstance(cur, (ast.If, ast.IfExp)) and KEY in norm(cur.test):
+                        guarded = True
+                    cur = parents.get(cur)
+                if not guarded:
+                    derefs.append((f, x))
+    m = repo.module("problog.engine")
+    if not derefs:
+        col.ok("E13", m, m.tree, "no builtin subscripts the call origin without a test: nothing depends on the entry points supplying it", construct="call origin: unconditional readers",
+               function="<module>")
+        return
+    entries = []
+    for f in repo.all_functions():
+        gb = [c for c in ast.walk(f.node) if isinstance(c, ast.Call) and isinstance(c.func, ast.Attribute) and c.func.attr == "get_builtin"]
+        ex = [c for c in ast.walk(f.node) if isinstance(c, ast.Call) and norm(c.func) == "self.execute"]
+        if gb and ex:
+            entries.append((f, ex))
+    if len(entries) < 2:
+        raise AnalysisError("entry points that evaluate a builtin without a calling clause not found (%d)" % len(entries))
+    for f, ex in entries:
+        for c in ex:
+            ok = any(k.arg == KEY and not (isinstance(k.value, ast.Constant) and k.value.value is None) for k in c.keywords)
+            star = [norm(k.value) for k in c.keywords if k.arg is None]
+            for st in walk_no_nested(f.node):
+                if getattr(st, "lineno", 0) >= c.lineno:
+                    continue
+                for y in ast.walk(st):
+                    if isinstance(y, ast.Call) and isinstance(y.func, ast.Attribute) and y.func.attr == "setdefault" and norm(y.func.value) in star and y.args \
+                            and isinstance(y.args[0], ast.Constant) and y.args[0].value == KEY and len(y.args) == 2 and not (isinstance(y.args[1], ast.Constant) and y.args[1].value is None):
+                        ok = True
+                    if isinstance(y, ast.Assign) and any(isinstance(t, ast.Subscript) and norm(t.value) in star and isinstance(t.slice, ast.Constant) and t.slice.value == KEY for t in y.targets) \
+                            and not (isinstance(y.value, ast.Constant) and y.value.value is None):
+                        ok = True
+            col.decide("E13", f.module, c, ok, "%s gives the builtin it evaluates a call origin" % f.qualname,
+                       "%s looks the goal up with get_builtin and evaluates it with self.execute(...) without a call_origin: EvalBuiltIn then passes call_origin=None to the builtin, and %d "
+                       "builtin readers subscript it without a test (first: %s:%d in %s) - `query(error(x)).` ends in TypeError: 'NoneType' object is not subscriptable instead of UserError"
+                       % (f.qualname, len(derefs), derefs[0][0].module.relpath, derefs[0][1].lineno, derefs[0][0].qualname),
+                       construct="%s: builtin evaluated without a call origin" % f.qualname, function=f.qualname)
+    col.count("E13.unconditional_readers", len(derefs))
+
+
+def rule_e14(repo, col):
+    """</2, >/2, =</2, >=/2 compare the values compute_value returns; a string constant computes to a Python str, so `"abc" > 1` is a TypeError unless the comparison is attempted
+    under a handler for it"""
+    mod = repo.module("problog.engine_builtin")
+    n = 0
+    for f in mod.functions.values():
+        vals = set()
+        for st in ast.walk(f.node):
+            if isinstance(st, ast.Assign) and isinstance(st.value, ast.Call) and isinstance(st.value.func, ast.Attribute) and st.value.func.attr == "compute_value":
+                vals |= {t.id for t in st.targets if isinstance(t, ast.Name)}
+        parents = None
+        for c in ast.walk(f.node):
+            if not (isinstance(c, ast.Compare) and any(isinstance(o, (ast.Lt, ast.LtE, ast.Gt, ast.GtE)) for o in c.ops)):
+                continue
+            computed = any((isinstance(x, ast.Name) and x.id in vals) or (isinstance(x, ast.Call) and isinstance(x.func, ast.Attribute) and x.func.attr == "compute_value") for x in ast.walk(c))
+            if not computed:
+                continue
+            n += 1
+            if parents is None:
+                parents = mod.parents()
+            cur, prev, guarded = parents.get(c), c, False
+            while cur is not None and cur is not f.node:
+                if isinstance(cur, ast.Try) and any(prev is b for b in cur.body):
+                    for h in cur.handlers:
+                        names = [norm(e) for e in handler_class_exprs(h)] if h.type is not None else ["BaseException"]
+                        if set(names) & {"TypeError", "Exception", "BaseException"}:
+                            guarded = True
+                prev, cur = cur, parents.get(cur)
+            col.decide("E14", mod, c, guarded, "%s: the order comparison of computed values is attempted under a TypeError handler" % f.name,
+                       "%s compares computed values with `%s` outside any TypeError handler: a string constant computes to a Python str, so `\"abc\" > 1` ends in TypeError: '>' not supported "
+                       "between instances of 'str' and 'int' instead of a ProbLog error" % (f.name, norm(c)), construct="%s: unguarded order comparison of computed values" % f.name, function=f.name)
+    col.floor("E14.comparisons", n, 4)
+
+
 def run(repo, col):
     col.rule("E9", "no contradictory key beliefs about a local dictionary (.get here, [k] there)")
     col.rule("E8", "the error-location formatter tolerates locations without an offset")
@@ -1102,3 +1197,7 @@ def run(repo, col):
     rule_e11(repo, col)
     col.rule("E12", "export decorators: nothing derived from an argument list that a subclass constructor replaces later")
     rule_e12(repo, col)
+    col.rule("E13", "a builtin evaluated without a calling clause still gets a call origin")
+    rule_e13(repo, col)
+    col.rule("E14", "order comparisons of computed values are attempted under a TypeError handler")
+    rule_e14(repo, col)
